@@ -27,6 +27,9 @@ var c02Alphabet = []string{
 	"X:M3-replay-L", "X:M5-random-key", "X:M5-replay-L", "X:M5-len0", "X:M5-len15", "X:M5-tag-flipped", "X:M5-zero-key-universal-signature",
 	"X:M1-method1", "X:state-0", "X:state-7", "X:reopen", "L:reopen",
 	"X:M3-A-zero-proof-for-empty-key", "L2:M5-of-L",
+	// L's key exchange sealed under the right key, its signed payload cut off inside the signature item: refused, and
+	// the exchange is over — a genuine key exchange that follows without a new start and proof stores nothing
+	"L:M5-sealed-but-cut-inside",
 }
 
 // c02Deep is the adversary-only alphabet of the deep exploration around rejected SRP public keys.
@@ -199,6 +202,20 @@ func (r *c02Run) step(ev string) bool {
 			}
 		}
 		return r.checkStore(ev)
+	case "M5-sealed-but-cut-inside":
+		var body []byte
+		if ctx.SRP != nil && ctx.EncKey != nil {
+			sub := refctl.M5Sub(ctx.SRP.K, r.idL)
+			body = refctl.M5Sealed(ctx.EncKey, sub[:len(sub)-7])
+		} else {
+			body = refctl.M5Sealed(refctl.Seed32("no-key"), refctl.M5Sub(nil, r.idL)[:20])
+		}
+		m, err = post(body)
+		if cls, isErr, t := c02Class(m, err); !isErr && len(t[refctl.TagEncrypted]) > 0 {
+			r.c.Class(op + "→" + cls)
+			r.fail("M6-for-damaged-key-exchange", "a key-exchange request whose signed payload is cut off was answered with an M6")
+			return false
+		}
 	case "M3-wrong-code":
 		cl := refctl.NewSRPClient(refctl.Seed32(fmt.Sprintf("xa:%d", r.seq)))
 		cl.Compute(ctx.Salt, ctx.B, r.wrongCode)
@@ -440,12 +457,26 @@ type c02Case struct {
 
 // Successive systems in one worker process alternate between two setup codes, and the adversary's "wrong code" is
 // always the OTHER one — a code that was valid for the previous system in the same process.
-var c02Pins = []string{"00102003", "46637726"}
+// (the third code is above 2^26: more than the 26 bits some descriptions of the setup payload give the code)
+var c02Pins = []string{"00102003", "46637726", "90000001"}
+
+// with the third setup code the legitimate controller's identifier ends in a NUL byte
+var c02NulL = refctl.NewIdentity("controller-7\x00", "legit-L-nul")
 var c02Seq int
+
+// c02Previous: the setup code of the system that ran before the one with code pin in the same process.
+func c02Previous(pin string) string {
+	for i, p := range c02Pins {
+		if p == pin {
+			return c02Pins[(i+len(c02Pins)-1)%len(c02Pins)]
+		}
+	}
+	return c02Pins[1]
+}
 
 func c02Exec(c *fw.Ctx, hist []string) bool {
 	c02Seq++
-	return c02ExecPin(c, c02Pins[c02Seq%2], hist)
+	return c02ExecPin(c, c02Pins[c02Seq%3], hist)
 }
 
 func c02ExecPin(c *fw.Ctx, pin string, hist []string) bool {
@@ -460,13 +491,13 @@ func c02ExecPin(c *fw.Ctx, pin string, hist []string) bool {
 		return false
 	}
 	defer b.Close()
-	other := c02Pins[0]
-	if pin == other {
-		other = c02Pins[1]
-	}
+	other := c02Previous(pin)
 	r := &c02Run{c: c, b: b, conns: map[string]*c02Conn{}, wrongCode: formatPin(other), idL: idL}
 	if pin == c02Pins[1] {
 		r.idL = c02LongL
+	}
+	if pin == c02Pins[2] {
+		r.idL = c02NulL
 	}
 	failed := false
 	cur := 0
@@ -558,7 +589,7 @@ func c02Run1(c *fw.Ctx) {
 	}
 	depth := 3
 	n := 19
-	alpha := append(append([]string{}, c02Alphabet[:20]...), c02Alphabet[len(c02Alphabet)-2:]...)
+	alpha := append(append([]string{}, c02Alphabet[:20]...), c02Alphabet[len(c02Alphabet)-3:]...)
 	if c.Thorough() {
 		depth, alpha = 4, c02Alphabet
 	}
@@ -638,7 +669,7 @@ func init() {
 	fw.Register(&fw.Check{
 		ID:    "C02",
 		Level: "model_checking",
-		Rule:  "every history of length 3 (quick, 22 symbols) / 4 (thorough, 27 symbols), plus every adversary-only history of length 5 (quick) / 7 (thorough) over 6 symbols around rejected SRP public keys, plus — from the non-initial state 'L has completed pairing' — every adversary history of length 2 (quick) / 3 (thorough) over 7 replay symbols, and — from the state 'L has proved the code and not yet exchanged keys' — every history of length 2 / 3 over the whole alphabet; successive systems of a worker process alternate between two setup codes and the adversary's wrong code is the other one, over the pair-setup alphabet on a legitimate connection L (knows the code) and an adversary connection X (sees all bytes, owns its keys, does not know the code): start; verify with right code, wrong code, A = 0 / N / 2N, proof missing, A missing, L's verify replayed, A = 0 with the proof for an empty session key; key-exchange genuine, L's genuine key-exchange delivered on another connection, sealed under the all-zero key / HKDF of an empty secret / the wrong-code secret / a random key, sealed under the all-zero key and presenting the neutral group element as long-term key with the signature that key accepts for every message, 0- and 15-byte payloads, tag flipped, L's key-exchange replayed; unknown method and states; reopen. Real transport over TCP with real SRP; a fresh system per history; after EVERY event the stored pairings (read through the database) must equal the model: the accessory's own entity plus exactly (L's id, L's key) iff L completed start → right-code verify → genuine key-exchange consecutively on its connection; proofs and M6 payloads must appear only when the model allows. In alternate systems the legitimate controller has a 124-byte identifier with letters of both cases and bytes that are not valid UTF-8. From the non-initial state '101 (thorough 300) setup-code proofs were refused', in one system: every adversary history of length 3 over the 6 deep symbols, each on a fresh connection, then L's genuine exchange. A genuine key exchange during which the storage refuses every write (RLIMIT_FSIZE 0) leaves the pairings that existed before in place. Plus interleavings of the real /pair-setup and /pair-verify handlers of two connections under a cooperative scheduler (subprocess built with the overlay; scheduling points = every log statement of the library, every mutex Lock in hap and crypto, and the arrival of each request), iterative preemption bounding to 2 (quick) / 3 (thorough), and once more with a scheduling point before EVERY statement of hc's packages and one preemption: two genuine key exchanges at once, a genuine key exchange next to a paired controller's pair-verify, next to an adversary's requests; after every schedule the stored pairings must be exactly those delivered. states = histories executed (each judges all its prefixes), distinct_nontrivial = distinct (event → response class) pairs",
+		Rule:  "every history of length 3 (quick, 23 symbols) / 4 (thorough, 28 symbols), plus every adversary-only history of length 5 (quick) / 7 (thorough) over 6 symbols around rejected SRP public keys, plus — from the non-initial state 'L has completed pairing' — every adversary history of length 2 (quick) / 3 (thorough) over 7 replay symbols, and — from the state 'L has proved the code and not yet exchanged keys' — every history of length 2 / 3 over the whole alphabet; successive systems of a worker process rotate through three setup codes (one above 2^26) and the adversary's wrong code is another one of them, over the pair-setup alphabet on a legitimate connection L (knows the code) and an adversary connection X (sees all bytes, owns its keys, does not know the code): start; verify with right code, wrong code, A = 0 / N / 2N, proof missing, A missing, L's verify replayed, A = 0 with the proof for an empty session key; key-exchange genuine, L's genuine key-exchange delivered on another connection, sealed under the all-zero key / HKDF of an empty secret / the wrong-code secret / a random key, sealed under the all-zero key and presenting the neutral group element as long-term key with the signature that key accepts for every message, 0- and 15-byte payloads, tag flipped, L's key-exchange replayed; unknown method and states; reopen. Real transport over TCP with real SRP; a fresh system per history; after EVERY event the stored pairings (read through the database) must equal the model: the accessory's own entity plus exactly (L's id, L's key) iff L completed start → right-code verify → genuine key-exchange consecutively on its connection; proofs and M6 payloads must appear only when the model allows. With the second code the legitimate controller has a 124-byte identifier with letters of both cases and bytes that are not valid UTF-8, with the third an identifier that ends in a NUL byte. L's key exchange sealed correctly but cut off inside ends the exchange. From the non-initial state '101 (thorough 300) setup-code proofs were refused', in one system: every adversary history of length 3 over the 6 deep symbols, each on a fresh connection, then L's genuine exchange. A genuine key exchange during which the storage refuses every write (RLIMIT_FSIZE 0) leaves the pairings that existed before in place. Plus interleavings of the real /pair-setup and /pair-verify handlers of two connections under a cooperative scheduler (subprocess built with the overlay; scheduling points = every log statement of the library, every mutex Lock in hap and crypto, and the arrival of each request), iterative preemption bounding to 2 (quick) / 3 (thorough), and once more with a scheduling point before EVERY statement of hc's packages and one preemption: two genuine key exchanges at once, a genuine key exchange next to a paired controller's pair-verify, next to an adversary's requests; after every schedule the stored pairings must be exactly those delivered. states = histories executed (each judges all its prefixes), distinct_nontrivial = distinct (event → response class) pairs",
 		Run:   c02Run1,
 		Replay: func(c *fw.Ctx, raw json.RawMessage) {
 			var pc pschedCase
@@ -656,11 +687,7 @@ func init() {
 				cas.Pin = c02Pins[0]
 			}
 			// the previous system of the process used the other code
-			other := c02Pins[0]
-			if cas.Pin == other {
-				other = c02Pins[1]
-			}
-			c02ExecPin(c, other, []string{"L:M1"})
+			c02ExecPin(c, c02Previous(cas.Pin), []string{"L:M1"})
 			c02ExecPin(c, cas.Pin, cas.Hist)
 		},
 		Budget: func(t string) time.Duration {
